@@ -392,6 +392,88 @@ Proof.
     + rewrite (Tail idx) by lia. split; [intros H; right; exact H|]. intros [(Hf & _)|H]; [discriminate|exact H].
 Qed.
 
+(* emitted global imports: the entries of the emission order that occupy a global index of the output *)
+Definition is_gl_entry (imports : list imp) (k : N) : bool := N.eqb (fst (import_at imports k)) 1.
+Definition emitted_globals_before (imports : list imp) (order : list N) (j : nat) : N :=
+  lenN (filter (is_gl_entry imports) (firstn j order)).
+
+Lemma egb_S imports k o j : emitted_globals_before imports (k :: o) (S j)
+  = (if is_gl_entry imports k then 1 else 0) + emitted_globals_before imports o j.
+Proof. unfold emitted_globals_before, lenN. cbn [firstn filter]. destruct (is_gl_entry imports k); cbn [length]; lia. Qed.
+
+Lemma emit_imp_gnames_spec imports nm : forall order idx q t,
+  In (q, t) (emit_imp_gnames idx imports order nm) <->
+  exists j k, nth_error order j = Some k /\ is_gl_entry imports k = true /\
+              lookup nm k = Some t /\ q = idx + emitted_globals_before imports order j.
+Proof.
+  induction order as [|k o IH]; intros idx q t; cbn [emit_imp_gnames].
+  - split; [intros []|]. intros (j & k & Hn & _). destruct j; discriminate.
+  - fold (is_gl_entry imports k).
+    assert (Tail : forall idx', idx' = idx + (if is_gl_entry imports k then 1 else 0) ->
+                   (In (q, t) (emit_imp_gnames idx' imports o nm) <->
+                    exists j k', nth_error o j = Some k' /\ is_gl_entry imports k' = true /\ lookup nm k' = Some t /\
+                                 q = idx + emitted_globals_before imports (k :: o) (S j))).
+    { intros idx' Ei. rewrite IH. split; intros (j & k' & Hn & Hf & Hk & Hq); exists j, k'; repeat split; try assumption;
+        rewrite egb_S in *; lia. }
+    assert (Split : (exists j k', nth_error (k :: o) j = Some k' /\ is_gl_entry imports k' = true /\ lookup nm k' = Some t /\
+                                  q = idx + emitted_globals_before imports (k :: o) j) <->
+                    (is_gl_entry imports k = true /\ lookup nm k = Some t /\ q = idx) \/
+                    (exists j k', nth_error o j = Some k' /\ is_gl_entry imports k' = true /\ lookup nm k' = Some t /\
+                                  q = idx + emitted_globals_before imports (k :: o) (S j))).
+    { split.
+      - intros (j & k' & Hn & Hf & Hk & Hq). destruct j as [|j]; cbn [nth_error] in Hn.
+        + inversion Hn; subst k'. left. repeat split; try assumption. rewrite Hq. unfold emitted_globals_before. cbn. lia.
+        + right. exists j, k'. auto.
+      - intros [(Hf & Hk & Hq)|(j & k' & Hn & Hf & Hk & Hq)].
+        + exists 0%nat, k. repeat split; try assumption. rewrite Hq. unfold emitted_globals_before. cbn. lia.
+        + exists (S j), k'. auto. }
+    rewrite Split. destruct (is_gl_entry imports k) eqn:Ef.
+    + destruct (lookup nm k) as [t0|] eqn:Ek.
+      * cbn [In]. rewrite (Tail (idx + 1) eq_refl). split.
+        -- intros [H|H]; [left; inversion H; subst; auto|right; exact H].
+        -- intros [(_ & Hk & Hq)|H]; [left; inversion Hk; subst; reflexivity|right; exact H].
+      * rewrite (Tail (idx + 1) eq_refl). split; [intros H; right; exact H|]. intros [(_ & Hk & _)|H]; [discriminate|exact H].
+    + rewrite (Tail idx) by lia. split; [intros H; right; exact H|]. intros [(Hf & _)|H]; [discriminate|exact H].
+Qed.
+
+
+Lemma emit_imp_gnames_ge imports nm : forall order idx q t, In (q, t) (emit_imp_gnames idx imports order nm) -> idx <= q.
+Proof.
+  induction order as [|k o IH]; intros idx q t H; cbn [emit_imp_gnames] in H; [destruct H|].
+  destruct (N.eqb (fst (import_at imports k)) 1).
+  - destruct (lookup nm k).
+    + destruct H as [H|H]; [inversion H; lia|]. apply IH in H. lia.
+    + apply IH in H. lia.
+  - exact (IH _ _ _ H).
+Qed.
+Lemma emit_imp_gnames_NoDup imports nm : forall order idx, NoDup (map fst (emit_imp_gnames idx imports order nm)).
+Proof.
+  induction order as [|k o IH]; intros idx; cbn [emit_imp_gnames]; [constructor|].
+  destruct (N.eqb (fst (import_at imports k)) 1); [|apply IH].
+  destruct (lookup nm k); [|apply IH]. cbn [map fst]. constructor; [|apply IH].
+  intro Hin. apply in_map_iff in Hin as ([q t] & Hq & Hin). cbn in Hq. subst q.
+  apply emit_imp_gnames_ge in Hin. lia.
+Qed.
+
+(* reindex_namemap's `renamed`: the last entry of an index wins over the parsed one; here the indices are distinct *)
+Lemma rename_all_In : forall (r l : nmap) q t, NoDup (map fst r) ->
+  (In (q, t) (rename_all l r) <-> In (q, t) r \/ (~ In q (map fst r) /\ In (q, t) l)).
+Proof.
+  induction r as [|[i x] r IH]; intros l q t Hnd; cbn [rename_all map fst].
+  - cbn. intuition.
+  - inversion Hnd as [|? ? Hni Hnd']; subst. rewrite (IH _ q t Hnd'). rewrite in_app_iff, filter_In. cbn [In fst].
+    split.
+    + intros [H|(Hn & [(Hl & Hne)|[H|[]]])].
+      * left. right. exact H.
+      * right. split; [|exact Hl]. intros [E|E]; [|contradiction]. subst i. rewrite N.eqb_refl in Hne. discriminate.
+      * left. left. exact H.
+    + intros [[H|H]|(Hn & Hl)].
+      * inversion H; subst. right. split; [exact Hni|]. right. left. reflexivity.
+      * left. exact H.
+      * right. split; [intro E; apply Hn; right; exact E|]. left. split; [exact Hl|].
+        apply negb_true_iff. apply N.eqb_neq. intro E. apply Hn. left. symmetry. exact E.
+Qed.
+
 (* FULL: for every history, the rebuilt function-name map consists exactly of
    - for every live local function that carries a body name: (its position in the function vector after
      recalculate_ids, the name) - and that position is the index the id map sends the function's stored id to, i.e.
@@ -579,28 +661,6 @@ Proof.
   - intros H; inversion H; reflexivity.
 Qed.
 
-(* PARTIAL: the local and the global name map are written back as parsed (D21).  They are right exactly in
-   the states in which no named global / no function with named locals has moved: then every entry (q, names)
-   sits at the position of the item whose stored id is q, i.e. of the very entity the input named. *)
-Theorem C29_partial :
-  forall (c : ncase) (s0 s : nst) (h : list nop) (rets : list (option N)) (e : emod) (n : names) lf mf lg mg,
-    init_state c = Ok s0 -> nrun_pref s0 h [] = (s, rets, false) -> nencode (nb_names c) s = Ok (e, n) ->
-    index_space (m_f (ns_m s)) = Ok (lf, mf) -> index_space (m_g (ns_m s)) = Ok (lg, mg) ->
-    maps_identity mg (n_globals (nb_names c)) -> maps_identity mf (n_locals (nb_names c)) ->
-    n_globals n = n_globals (nb_names c) /\ n_locals n = n_locals (nb_names c) /\
-    (forall q t, In (q, t) (n_globals n) -> exists it, nth_error lg (N.to_nat q) = Some it /\ it_id it = q) /\
-    (forall q l, In (q, l) (n_locals n) -> exists it, nth_error lf (N.to_nat q) = Some it /\ it_id it = q).
-Proof.
-  intros c s0 s h rets e n lf mf lg mg _ _ Henc Hf Hg Ig If.
-  unfold nencode in Henc. destruct (encode _ _ _) as [e'|]; [|discriminate].
-  rewrite Hf, Hg in Henc. destruct (index_space (m_m (ns_m s))) as [[lm mm]|]; [|discriminate].
-  inversion Henc; subst e n; clear Henc. cbn [emit_names n_globals n_locals].
-  apply index_space_mapping in Hf, Hg. subst mf mg.
-  repeat split.
-  - intros q t Hin. exact (mapping_inv _ _ _ (Ig q t Hin)).
-  - intros q l Hin. exact (mapping_inv _ _ _ (If q l Hin)).
-Qed.
-
 (* the global stored under an id keeps its identity (fingerprint) through every edit: globals are only appended
    or flagged deleted, never replaced *)
 Definition g_stable (l l' : list item) : Prop :=
@@ -668,26 +728,292 @@ Proof.
   - inversion H; subst. exact Hin.
 Qed.
 
-(* the same on the level of entities: under the hypothesis of C29_partial, the item found at output position q
-   is the very global that the input module had at index q (same fingerprint) *)
-Theorem C29_partial_global_entity :
-  forall (c : ncase) (s0 s : nst) (h : list nop) (rets : list (option N)) lg mg q t g0,
-    init_state c = Ok s0 -> nrun_pref s0 h [] = (s, rets, false) ->
-    index_space (m_g (ns_m s)) = Ok (lg, mg) ->
-    In (q, t) (n_globals (nb_names c)) -> lookup mg q = Some q ->
-    nth_error (s_items (m_g (ns_m s0))) (N.to_nat q) = Some g0 ->       (* the input's global number q *)
-    exists it, nth_error lg (N.to_nat q) = Some it /\ it_id it = q /\ it_fp it = it_fp g0.
+(* ---- re-indexing of a parsed name map: reindex_names of wrappers.rs ---- *)
+Lemma In_reindex {B} (mp : list (N * N)) : forall (l : list (N * B)) q v,
+  In (q, v) (reindex mp l) <-> exists k, In (k, v) l /\ lookup mp k = Some q.
 Proof.
-  intros c s0 s h rets lg mg q t g0 H0 Hrun Hg _ Hid Hg0.
-  pose proof (reachable_inv _ _ _ _ _ _ H0 Hrun) as (_ & Hgi & _).
-  pose proof (index_space_mapping _ _ _ Hg) as ->.
-  destruct (mapping_inv _ _ _ Hid) as (it & Hn & Hit). exists it. repeat split; try assumption.
-  destruct (nrun_pref_g_stable _ _ _ _ _ _ Hrun _ _ Hg0) as (it' & Hn' & Hfp).
-  assert (Hin : In it (s_items (m_g (ns_m s)))) by (apply (index_space_incl _ _ _ _ Hgi Hg); exact (nth_error_In _ _ Hn)).
-  assert (Hin' : In it' (s_items (m_g (ns_m s)))) by exact (nth_error_In _ _ Hn').
-  destruct Hgi as [Hp _].
-  assert (it = it') as ->; [|exact Hfp].
-  apply (pos_ids_inj _ Hp); try assumption. rewrite Hit, (Hp _ _ Hn'). symmetry. apply N2Nat.id.
+  induction l as [|[k0 v0] l IH]; intros q v; cbn [reindex flat_map fst snd].
+  - split; [intros []|intros (k & [] & _)].
+  - fold (reindex mp l). rewrite in_app_iff, IH. split.
+    + intros [H|(k & Hk & Hl)].
+      * destruct (lookup mp k0) as [q0|] eqn:E; [|destruct H]. destruct H as [H|[]]. inversion H; subst.
+        exists k0. split; [left; reflexivity|exact E].
+      * exists k. split; [right; exact Hk|exact Hl].
+    + intros (k & [Hk|Hk] & Hl).
+      * inversion Hk; subst. left. rewrite Hl. left. reflexivity.
+      * right. exists k. auto.
+Qed.
+Lemma In_insert_key {B} (x : N * B) : forall l y, In y (insert_key x l) <-> y = x \/ In y l.
+Proof.
+  induction l as [|z l IH]; intros y; cbn [insert_key].
+  - cbn. intuition.
+  - destruct (fst x <=? fst z); cbn [In]; [intuition|]. rewrite IH. intuition.
+Qed.
+Lemma In_sort_key {B} : forall (l : list (N * B)) y, In y (sort_key l) <-> In y l.
+Proof.
+  induction l as [|x l IH]; intros y; cbn [sort_key fold_right]; [reflexivity|].
+  fold (sort_key l). rewrite In_insert_key, IH. cbn. intuition.
+Qed.
+(* the emitted map is in ascending index order, as the name section requires *)
+Inductive ascending {B} : list (N * B) -> Prop :=
+| asc_nil : ascending []
+| asc_one x : ascending [x]
+| asc_cons x y l : fst x <= fst y -> ascending (y :: l) -> ascending (x :: y :: l).
+Lemma insert_key_ascending {B} (x : N * B) : forall l, ascending l -> ascending (insert_key x l).
+Proof.
+  induction l as [|y l IH]; intros Hs; cbn [insert_key]; [constructor|].
+  destruct (fst x <=? fst y) eqn:E.
+  - constructor; [apply N.leb_le; exact E|exact Hs].
+  - apply N.leb_gt in E. inversion Hs; subst.
+    + cbn. constructor; [lia|constructor].
+    + specialize (IH H2). cbn [insert_key] in *. destruct (fst x <=? fst y0) eqn:E2.
+      * constructor; [lia|]. constructor; [apply N.leb_le; exact E2|exact H2].
+      * constructor; [exact H1|exact IH].
+Qed.
+Lemma sort_key_ascending {B} : forall l : list (N * B), ascending (sort_key l).
+Proof.
+  induction l as [|x l IH]; cbn [sort_key fold_right]; [constructor|]. apply insert_key_ascending. exact IH.
+Qed.
+Lemma In_remembered {B} forgot : forall (l : list (N * B)) kv,
+  In kv (remembered forgot l) <-> In kv l /\ ~ In (fst kv) forgot.
+Proof.
+  intros l kv. unfold remembered. rewrite filter_In. split; intros [H1 H2]; (split; [exact H1|]).
+  - intro Hin. apply negb_true_iff in H2.
+    assert (T : existsb (N.eqb (fst kv)) forgot = true) by (apply existsb_exists; exists (fst kv); split; [exact Hin|apply N.eqb_refl]).
+    congruence.
+  - apply negb_true_iff. destruct (existsb _ forgot) eqn:E; [|reflexivity]. exfalso. apply H2.
+    apply existsb_exists in E as (x & Hx & Ex). apply N.eqb_eq in Ex. subst. exact Hx.
+Qed.
+
+Lemma nencode_names c s e n lf mf lg mg lm mm :
+  nencode (nb_names c) s = Ok (e, n) ->
+  index_space (m_f (ns_m s)) = Ok (lf, mf) -> index_space (m_g (ns_m s)) = Ok (lg, mg) -> index_space (m_m (ns_m s)) = Ok (lm, mm) ->
+  n = emit_names (nb_names c) s lf lg lm mf mg mm.
+Proof.
+  unfold nencode. intros H Hf Hg Hm. destruct (encode _ _ _) as [e'|]; [|discriminate].
+  rewrite Hf, Hg, Hm in H. inversion H; reflexivity.
+Qed.
+
+(* FULL (since the repair of D21 and D202), for every input module and every history: the emitted global-name map
+   consists exactly of (global index of an emitted global import, the custom name of its entry) - see
+   [emit_imp_gnames_spec] - and, for the indices no such name is given to, of the parsed entries whose global still has
+   an index, each under that new index - the names of deleted globals are gone, no other name appears - in ascending
+   order; and the item found at that index is the very global
+   the input had under the parsed index (same stored id, same fingerprint). *)
+Theorem global_names_stay_attached :
+  forall (c : ncase) (s0 s : nst) (h : list nop) (rets : list (option N)) (e : emod) (n : names) lf mf lg mg lm mm,
+    init_state c = Ok s0 -> nrun_pref s0 h [] = (s, rets, false) -> nencode (nb_names c) s = Ok (e, n) ->
+    index_space (m_f (ns_m s)) = Ok (lf, mf) -> index_space (m_g (ns_m s)) = Ok (lg, mg) -> index_space (m_m (ns_m s)) = Ok (lm, mm) ->
+    (forall q t, In (q, t) (n_globals n) <->
+       In (q, t) (import_global_names s lf lg lm) \/
+       (~ In q (map fst (import_global_names s lf lg lm)) /\ exists g, In (g, t) (n_globals (nb_names c)) /\ lookup mg g = Some q)) /\
+    ascending (n_globals n) /\
+    (forall g t q g0, In (g, t) (n_globals (nb_names c)) -> lookup mg g = Some q ->
+       nth_error (s_items (m_g (ns_m s0))) (N.to_nat g) = Some g0 ->            (* the input's global number g *)
+       exists it, nth_error lg (N.to_nat q) = Some it /\ it_id it = g /\ it_fp it = it_fp g0).
+Proof.
+  intros c s0 s h rets e n lf mf lg mg lm mm H0 Hrun Henc Hf Hg Hm.
+  rewrite (nencode_names _ _ _ _ _ _ _ _ _ _ Henc Hf Hg Hm). cbn [emit_names n_globals].
+  split; [|split].
+  - intros q t. rewrite In_sort_key. unfold import_global_names.
+    rewrite (rename_all_In _ _ q t (emit_imp_gnames_NoDup _ _ _ _)), In_reindex. reflexivity.
+  - apply sort_key_ascending.
+  - intros g t q g0 _ Hid Hg0.
+    pose proof (reachable_inv _ _ _ _ _ _ H0 Hrun) as (_ & Hgi & _).
+    pose proof (index_space_mapping _ _ _ Hg) as ->.
+    destruct (mapping_inv _ _ _ Hid) as (it & Hn & Hit). exists it. repeat split; try assumption.
+    destruct (nrun_pref_g_stable _ _ _ _ _ _ Hrun _ _ Hg0) as (it' & Hn' & Hfp).
+    assert (Hin : In it (s_items (m_g (ns_m s)))) by (apply (index_space_incl _ _ _ _ Hgi Hg); exact (nth_error_In _ _ Hn)).
+    assert (Hin' : In it' (s_items (m_g (ns_m s)))) by exact (nth_error_In _ _ Hn').
+    destruct Hgi as [Hp _].
+    assert (it = it') as ->; [|exact Hfp].
+    apply (pos_ids_inj _ Hp); try assumption. rewrite Hit, (Hp _ _ Hn'). symmetry. apply N2Nat.id.
+Qed.
+
+(* the function stored under an id keeps its identity (fingerprint, local / imported) through every edit unless it is
+   converted - and then the names of its locals and labels are forgotten *)
+Definition f_kept (l : list item) (s : nst) : Prop :=
+  forall p it, nth_error l p = Some it ->
+    In (N.of_nat p) (ns_forgot s) \/
+    exists it', nth_error (s_items (m_f (ns_m s))) p = Some it' /\ it_fp it' = it_fp it /\ it_imp it' = it_imp it.
+
+Lemma delete_in_f_items m s id m' : delete_in m s id = Ok m' ->
+  forall p it, nth_error (s_items (m_f m)) p = Some it ->
+    exists it', nth_error (s_items (m_f m')) p = Some it' /\ it_fp it' = it_fp it /\ it_imp it' = it_imp it.
+Proof.
+  unfold delete_in. intros H p it Hp. destruct (nthN _ id) as [it0|]; [|discriminate].
+  assert (X : forall l : list item, nth_error l p = Some it ->
+              exists it', nth_error (if id <? lenN l then updN id (set_del true) l else l) p = Some it' /\ it_fp it' = it_fp it /\ it_imp it' = it_imp it).
+  { intros l Hl. destruct (id <? lenN l); [|exists it; auto]. unfold updN. rewrite nth_error_upd, Hl.
+    destruct (Nat.eqb p (N.to_nat id)); cbn; eexists; repeat split; reflexivity. }
+  destruct (it_imp it0); inversion H; subst; clear H; destruct s; cbn; first [apply X; exact Hp | exists it; auto].
+Qed.
+
+Lemma nth_error_updN_other {A} (f : A -> A) (l : list A) (k : N) p : p <> N.to_nat k -> nth_error (updN k f l) p = nth_error l p.
+Proof. intros H. unfold updN. rewrite nth_error_upd. destruct (Nat.eqb_spec p (N.to_nat k)); [contradiction|reflexivity]. Qed.
+
+Lemma nstep_f_kept s o s' r : nstep s o = Ok (s', r) ->
+  (forall x, In x (ns_forgot s) -> In x (ns_forgot s')) /\
+  (forall p it, nth_error (s_items (m_f (ns_m s))) p = Some it ->
+     In (N.of_nat p) (ns_forgot s') \/
+     exists it', nth_error (s_items (m_f (ns_m s'))) p = Some it' /\ it_fp it' = it_fp it /\ it_imp it' = it_imp it).
+Proof.
+  intros H.
+  assert (Same : forall s1, ns_forgot s1 = ns_forgot s -> s_items (m_f (ns_m s1)) = s_items (m_f (ns_m s)) ->
+            (forall x, In x (ns_forgot s) -> In x (ns_forgot s1)) /\
+            (forall p it, nth_error (s_items (m_f (ns_m s))) p = Some it ->
+               In (N.of_nat p) (ns_forgot s1) \/
+               exists it', nth_error (s_items (m_f (ns_m s1))) p = Some it' /\ it_fp it' = it_fp it /\ it_imp it' = it_imp it)).
+  { intros s1 E1 E2. rewrite E1, E2. split; [auto|]. intros p it Hp. right. exists it. auto. }
+  destruct o as [e b|id t|id t|id t|k t].
+  2-5: (unfold nstep, imp_set_fn_name in H; break_match_in H; inversion H; subst; apply Same; reflexivity).
+  unfold nstep in H. destruct (Reindex.step (ns_m s) e) as [[m' r']|w] eqn:E; [|discriminate].
+  destruct e as [x fp|x fp|x id|id fp|k fp|fp|x id|k|mem]; cbn [Reindex.step] in E.
+  - (* AddLocal *)
+    assert (Hit : forall p it, nth_error (s_items (m_f (ns_m s))) p = Some it -> nth_error (s_items (m_f m')) p = Some it).
+    { intros p it Hp. destruct x; break_match_in E; inversion E; subst; cbn; try exact Hp;
+        (rewrite nth_error_app1; [exact Hp|]; apply nth_error_Some; congruence). }
+    assert (Hf : ns_forgot s' = ns_forgot s /\ ns_m s' = m').
+    { destruct x; break_match_in H; inversion H; subst; cbn; auto. }
+    destruct Hf as [Hf Hm]. rewrite Hf, Hm. split; [auto|]. intros p it Hp. right. exists it. auto.
+  - (* AddImport *)
+    assert (Hit : forall p it, nth_error (s_items (m_f (ns_m s))) p = Some it -> nth_error (s_items (m_f m')) p = Some it).
+    { intros p it Hp. destruct x; unfold push_import in E; cbn in E; break_match_in E; inversion E; subst; cbn; try exact Hp;
+        (rewrite nth_error_app1; [exact Hp|]; apply nth_error_Some; congruence). }
+    assert (Hf : ns_forgot s' = ns_forgot s /\ ns_m s' = m') by (destruct x; inversion H; subst; cbn; auto).
+    destruct Hf as [Hf Hm]. rewrite Hf, Hm. split; [auto|]. intros p it Hp. right. exists it. auto.
+  - (* Delete *)
+    destruct (delete_in (ns_m s) x id) as [m1|] eqn:Ed; [|discriminate]. inversion E; subst m1 r'; clear E.
+    assert (Hf : ns_forgot s' = ns_forgot s /\ ns_m s' = m') by (destruct x; inversion H; subst; cbn; auto).
+    destruct Hf as [Hf Hm]. rewrite Hf, Hm. split; [auto|]. intros p it Hp. right.
+    exact (delete_in_f_items _ _ _ _ Ed p it Hp).
+  - (* LocalToImport *)
+    destruct (nthN (s_items (m_f (ns_m s))) id) as [it0|] eqn:E0; [|discriminate].
+    destruct (is_import it0) eqn:Ei.
+    + inversion E; subst. inversion H; subst. apply Same; reflexivity.
+    + destruct (delete_in (ns_m s) SF id) as [m1|] eqn:Ed; [|discriminate].
+      unfold push_import in E. cbn in E. inversion E; subst m' r'; clear E.
+      inversion H; subst s' r; clear H. cbn [ns_forgot ns_m]. split; [intros x0 Hx; right; exact Hx|].
+      intros p it Hp. destruct (Nat.eq_dec p (N.to_nat id)) as [->|Hne].
+      * left. left. symmetry. apply N2Nat.id.
+      * right. destruct (delete_in_f_items _ _ _ _ Ed p it Hp) as (it' & Hn' & A & B).
+        exists it'. cbn. rewrite nth_error_updN_other by exact Hne. auto.
+  - (* ImportToLocal *)
+    destruct (nthN (m_imports (ns_m s)) k) as [im|] eqn:Ek; [|discriminate].
+    destruct (negb (N.eqb (i_sp im) 0)); [discriminate|].
+    destruct (find_imp (s_items (m_f (ns_m s))) k 0) as [p0|] eqn:Ef.
+    + destruct (delete_in (ns_m s) SF p0) as [m1|] eqn:Ed; [|discriminate].
+      inversion E; subst m' r'; clear E. inversion H; subst s' r; clear H. cbn [ns_forgot ns_m].
+      split; [intros x0 Hx; right; exact Hx|].
+      intros p it Hp. destruct (Nat.eq_dec p (N.to_nat p0)) as [->|Hne].
+      * left. left. symmetry. apply N2Nat.id.
+      * right. destruct (delete_in_f_items _ _ _ _ Ed p it Hp) as (it' & Hn' & A & B).
+        exists it'. cbn. rewrite nth_error_updN_other by exact Hne. auto.
+    + inversion E; subst. inversion H; subst. apply Same; reflexivity.
+  - (* ItAddGlobal *)
+    inversion E; subst. inversion H; subst. cbn. split; [auto|]. intros p it Hp. right. exists it. auto.
+  - inversion E; subst. inversion H; subst. apply Same; reflexivity.
+  - inversion E; subst. inversion H; subst. apply Same; reflexivity.
+  - inversion E; subst. inversion H; subst. apply Same; reflexivity.
+Qed.
+
+Lemma nrun_pref_f_kept l : forall h s rets s' rets' p,
+  nrun_pref s h rets = (s', rets', p) -> f_kept l s -> f_kept l s'.
+Proof.
+  induction h as [|o h IH]; intros s rets s' rets' p H K; cbn in H.
+  - inversion H; subst. exact K.
+  - destruct (nstep s o) as [[s1 r]|w] eqn:E; [|inversion H; subst; exact K].
+    apply (IH _ _ _ _ _ H). destruct (nstep_f_kept _ _ _ _ E) as [Hmono Hstep].
+    intros q it Hq. destruct (K q it Hq) as [Hin|(it1 & Hn1 & A1 & B1)]; [left; apply Hmono; exact Hin|].
+    destruct (Hstep q it1 Hn1) as [Hin|(it2 & Hn2 & A2 & B2)]; [left; exact Hin|].
+    right. exists it2. repeat split; congruence.
+Qed.
+
+(* FULL (since the repair of D21), for every input module and every history: the emitted local-name map consists exactly
+   of the parsed entries whose function was not converted and still has an index, each under that new index, in
+   ascending order; and the item found at that index is the very function the input had under the parsed index (same
+   stored id, same fingerprint, still local resp. still imported). *)
+Theorem local_names_stay_attached :
+  forall (c : ncase) (s0 s : nst) (h : list nop) (rets : list (option N)) (e : emod) (n : names) lf mf lg mg lm mm,
+    init_state c = Ok s0 -> nrun_pref s0 h [] = (s, rets, false) -> nencode (nb_names c) s = Ok (e, n) ->
+    index_space (m_f (ns_m s)) = Ok (lf, mf) -> index_space (m_g (ns_m s)) = Ok (lg, mg) -> index_space (m_m (ns_m s)) = Ok (lm, mm) ->
+    (forall q l, In (q, l) (n_locals n) <->
+       exists f, In (f, l) (n_locals (nb_names c)) /\ ~ In f (ns_forgot s) /\ lookup mf f = Some q) /\
+    ascending (n_locals n) /\
+    (forall f l q f0, In (f, l) (n_locals (nb_names c)) -> ~ In f (ns_forgot s) -> lookup mf f = Some q ->
+       nth_error (s_items (m_f (ns_m s0))) (N.to_nat f) = Some f0 ->            (* the input's function number f *)
+       exists it, nth_error lf (N.to_nat q) = Some it /\ it_id it = f /\ it_fp it = it_fp f0 /\ it_imp it = it_imp f0).
+Proof.
+  intros c s0 s h rets e n lf mf lg mg lm mm H0 Hrun Henc Hf Hg Hm.
+  rewrite (nencode_names _ _ _ _ _ _ _ _ _ _ Henc Hf Hg Hm). cbn [emit_names n_locals].
+  split; [|split].
+  - intros q l. rewrite In_sort_key, In_reindex. split.
+    + intros (f & Hin & Hl). apply In_remembered in Hin as [Hin Hnf]. exists f. auto.
+    + intros (f & Hin & Hnf & Hl). exists f. split; [|exact Hl]. apply In_remembered. auto.
+  - apply sort_key_ascending.
+  - intros f l q f0 _ Hnf Hid Hf0.
+    pose proof (reachable_inv _ _ _ _ _ _ H0 Hrun) as (Hfi & _ & _).
+    pose proof (index_space_mapping _ _ _ Hf) as ->.
+    destruct (mapping_inv _ _ _ Hid) as (it & Hn & Hit). exists it. split; [exact Hn|]. split; [exact Hit|].
+    assert (K0 : f_kept (s_items (m_f (ns_m s0))) s0) by (intros p0 it0 Hp0; right; exists it0; auto).
+    pose proof (nrun_pref_f_kept _ _ _ _ _ _ _ Hrun K0 _ _ Hf0) as [Hin|(it' & Hn' & Hfp & Himp)].
+    { rewrite N2Nat.id in Hin. contradiction. }
+    assert (Hin : In it (s_items (m_f (ns_m s)))) by (apply (index_space_incl _ _ _ _ Hfi Hf); exact (nth_error_In _ _ Hn)).
+    assert (Hin' : In it' (s_items (m_f (ns_m s)))) by exact (nth_error_In _ _ Hn').
+    destruct Hfi as [Hp _].
+    assert (it = it') as ->; [|split; assumption].
+    apply (pos_ids_inj _ Hp); try assumption. rewrite Hit, (Hp _ _ Hn'). symmetry. apply N2Nat.id.
+Qed.
+
+(* the two statements about the *content* of the maps, and the two about the *entities*, side by side *)
+Theorem name_maps_follow_their_entities :
+  forall (c : ncase) (s0 s : nst) (h : list nop) (rets : list (option N)) (e : emod) (n : names) lf mf lg mg lm mm,
+    init_state c = Ok s0 -> nrun_pref s0 h [] = (s, rets, false) -> nencode (nb_names c) s = Ok (e, n) ->
+    index_space (m_f (ns_m s)) = Ok (lf, mf) -> index_space (m_g (ns_m s)) = Ok (lg, mg) -> index_space (m_m (ns_m s)) = Ok (lm, mm) ->
+    (forall q t, In (q, t) (n_globals n) <->
+       In (q, t) (import_global_names s lf lg lm) \/
+       (~ In q (map fst (import_global_names s lf lg lm)) /\ exists g, In (g, t) (n_globals (nb_names c)) /\ lookup mg g = Some q)) /\
+    (forall q l, In (q, l) (n_locals n) <->
+       exists f, In (f, l) (n_locals (nb_names c)) /\ ~ In f (ns_forgot s) /\ lookup mf f = Some q) /\
+    ascending (n_globals n) /\ ascending (n_locals n).
+Proof.
+  intros c s0 s h rets e n lf mf lg mg lm mm H0 Hrun Henc Hf Hg Hm.
+  destruct (global_names_stay_attached _ _ _ _ _ _ _ _ _ _ _ _ _ H0 Hrun Henc Hf Hg Hm) as (G1 & G2 & _).
+  destruct (local_names_stay_attached _ _ _ _ _ _ _ _ _ _ _ _ _ H0 Hrun Henc Hf Hg Hm) as (L1 & L2 & _).
+  auto.
+Qed.
+Theorem named_entities_are_the_parsed_ones :
+  forall (c : ncase) (s0 s : nst) (h : list nop) (rets : list (option N)) lf mf lg mg,
+    init_state c = Ok s0 -> nrun_pref s0 h [] = (s, rets, false) ->
+    index_space (m_f (ns_m s)) = Ok (lf, mf) -> index_space (m_g (ns_m s)) = Ok (lg, mg) ->
+    (forall g q g0, lookup mg g = Some q -> nth_error (s_items (m_g (ns_m s0))) (N.to_nat g) = Some g0 ->
+       exists it, nth_error lg (N.to_nat q) = Some it /\ it_id it = g /\ it_fp it = it_fp g0) /\
+    (forall f q f0, ~ In f (ns_forgot s) -> lookup mf f = Some q -> nth_error (s_items (m_f (ns_m s0))) (N.to_nat f) = Some f0 ->
+       exists it, nth_error lf (N.to_nat q) = Some it /\ it_id it = f /\ it_fp it = it_fp f0 /\ it_imp it = it_imp f0).
+Proof.
+  intros c s0 s h rets lf mf lg mg H0 Hrun Hf Hg. split.
+  - intros g q g0 Hid Hg0.
+    pose proof (reachable_inv _ _ _ _ _ _ H0 Hrun) as (_ & Hgi & _).
+    pose proof (index_space_mapping _ _ _ Hg) as ->.
+    destruct (mapping_inv _ _ _ Hid) as (it & Hn & Hit). exists it. repeat split; try assumption.
+    destruct (nrun_pref_g_stable _ _ _ _ _ _ Hrun _ _ Hg0) as (it' & Hn' & Hfp).
+    assert (Hin : In it (s_items (m_g (ns_m s)))) by (apply (index_space_incl _ _ _ _ Hgi Hg); exact (nth_error_In _ _ Hn)).
+    assert (Hin' : In it' (s_items (m_g (ns_m s)))) by exact (nth_error_In _ _ Hn').
+    destruct Hgi as [Hp _].
+    assert (it = it') as ->; [|exact Hfp].
+    apply (pos_ids_inj _ Hp); try assumption. rewrite Hit, (Hp _ _ Hn'). symmetry. apply N2Nat.id.
+  - intros f q f0 Hnf Hid Hf0.
+    pose proof (reachable_inv _ _ _ _ _ _ H0 Hrun) as (Hfi & _ & _).
+    pose proof (index_space_mapping _ _ _ Hf) as ->.
+    destruct (mapping_inv _ _ _ Hid) as (it & Hn & Hit). exists it. split; [exact Hn|]. split; [exact Hit|].
+    assert (K0 : f_kept (s_items (m_f (ns_m s0))) s0) by (intros p0 it0 Hp0; right; exists it0; auto).
+    pose proof (nrun_pref_f_kept _ _ _ _ _ _ _ Hrun K0 _ _ Hf0) as [Hin|(it' & Hn' & Hfp & Himp)].
+    { rewrite N2Nat.id in Hin. contradiction. }
+    assert (Hin : In it (s_items (m_f (ns_m s)))) by (apply (index_space_incl _ _ _ _ Hfi Hf); exact (nth_error_In _ _ Hn)).
+    assert (Hin' : In it' (s_items (m_f (ns_m s)))) by exact (nth_error_In _ _ Hn').
+    destruct Hfi as [Hp _].
+    assert (it = it') as ->; [|split; assumption].
+    apply (pos_ids_inj _ Hp); try assumption. rewrite Hit, (Hp _ _ Hn'). symmetry. apply N2Nat.id.
 Qed.
 
 (* ------------------------------------------------------------------------------------------ *)
@@ -703,7 +1029,7 @@ Qed.
 Definition Names_attached (s : nspec) (e : emod) (n : names) : Prop :=
   (* every emitted function name sits on the entity that carries it (or that the conversion API named so) *)
   (forall q t, In (q, t) (n_funcs n) ->
-     exists h, out_handle (sp_s s) e SF q = Some h /\ (lookup (sp_fn s) h = Some t \/ lookup (sp_alt s) h = Some t)) /\
+     exists h, out_handle (sp_s s) e SF q = Some h /\ (lookup (sp_fn s) h = Some t \/ In (h, t) (sp_alt s))) /\
   (* every live named function still has a name entry *)
   (forall h t, In (h, t) (sp_fn s) -> is_live (ss_f (sp_s s)) h = true ->
      exists q t', In (q, t') (n_funcs n) /\ out_handle (sp_s s) e SF q = Some h) /\
@@ -722,12 +1048,12 @@ Proof.
   unfold has_entry. intros H. apply existsb_exists in H as ([q v] & Hin & Hq). exists q, v. split; [exact Hin|].
   cbn in Hq. destruct (out_handle s e x q) as [h'|]; cbn in Hq; [|discriminate]. apply N.eqb_eq in Hq. congruence.
 Qed.
-Lemma tok_allowed_sound t a b : tok_allowed t a b = true -> a = Some t \/ b = Some t.
+Lemma tok_allowed_sound t a alts h : tok_allowed t a alts h = true -> a = Some t \/ In (h, t) alts.
 Proof.
-  unfold tok_allowed. destruct a as [x|], b as [y|]; intros H; try discriminate.
-  - apply orb_prop in H as [H|H]; apply N.eqb_eq in H; subst; auto.
-  - apply N.eqb_eq in H; subst; auto.
-  - apply N.eqb_eq in H; subst; auto.
+  unfold tok_allowed. intros H. apply orb_prop in H as [H|H].
+  - destruct a as [x|]; [|discriminate]. apply N.eqb_eq in H. subst. auto.
+  - right. apply existsb_exists in H as ([k v] & Hin & Hkv). cbn in Hkv. apply andb_prop in Hkv as [A B].
+    apply N.eqb_eq in A, B. subst. exact Hin.
 Qed.
 
 Theorem names_checker_sound (c : ncase) (e : emod) (n : names) :
@@ -744,7 +1070,7 @@ Proof.
   - intros q t Hin. unfold fn_sound in Hfs. apply andb_prop in Hfs as [_ Hfs].
     rewrite forallb_forall in Hfs. specialize (Hfs _ Hin). cbn in Hfs.
     destruct (out_handle (sp_s s) e SF q) as [h|]; [|discriminate]. exists h. split; [reflexivity|].
-    exact (tok_allowed_sound _ _ _ Hfs).
+    exact (tok_allowed_sound _ _ _ _ Hfs).
   - intros h t Hin Hl. unfold fn_kept in Hfk. rewrite forallb_forall in Hfk. specialize (Hfk _ Hin). cbn in Hfk.
     rewrite Hl in Hfk. cbn in Hfk. exact (has_entry_sound _ _ _ _ _ Hfk).
   - intros q l Hin. unfold ln_sound in Hls. apply andb_prop in Hls as [_ Hls].
